@@ -541,7 +541,7 @@ func replayRead(c *Ctx, v *Violation) string {
 
 func init() {
 	Register(&Monitor{ID: "C02", Run: func(c *Ctx) {
-		c.Rule = "seeded value streams rendered by the independent text printer with a random spelling choice at every token (whitespace, comments, radix/underscore/exponent forms, escapes, long-string segmentation, quoted/operator/$n symbols, lob layout, trailing commas, local symbol tables); each rendering must first parse back to the model under the reference parser, then ion-go's Reader must yield the model; a buffer-boundary sweep shifts short documents by whitespace/comment filler so that every sampled offset of the document falls on a multiple of 4096 bytes of input; streams that resemble symbol tables and version markers without being any. Non-trivial: >=2 non-canonical spelling choices and >=1 non-null value; distinct by rendered text."
+		c.Rule = "seeded value streams rendered by the independent text printer with a random spelling choice at every token (whitespace, comments, radix/underscore/exponent forms, escapes, long-string segmentation, quoted/operator/$n symbols, lob layout, trailing commas, local symbol tables); each rendering must first parse back to the model under the reference parser, then ion-go's Reader must yield the model; a buffer-boundary sweep shifts short documents by whitespace/comment filler so that every sampled offset of the document falls on a multiple of 4096 bytes of input; a token-length sweep (23 literal kinds at every length 1..140 and around 256, 1024, 4096); a line-ending sweep (CR, LF, CR LF runs inside long strings, clobs and comments shifted byte by byte across the 4096 and 8192 marks); comments directly behind every kind of token, operators included; streams that resemble symbol tables and version markers without being any. Non-trivial: >=2 non-canonical spelling choices and >=1 non-null value; distinct by rendered text."
 		c.Assume("reftext implements the Ion 1.0 text grammar (DESIGN.md appendix A); doubtful spellings are not generated (DESIGN.md section 5)")
 		runReadMonitor(c, "text-read", false)
 	}, Replay: replayRead})
